@@ -165,6 +165,57 @@ def family(name, T):
     return "core"
 
 
+def judge_trial(rep, case, name, T, fam, obj, vals, labels, cont):
+    """one coercion of one container: contract clauses with the dtype's own `coerce_value` as element oracle"""
+    from pandera import errors
+    n = len(vals)
+    elem = []
+    for x in vals:
+        try:
+            elem.append(("ok", T.coerce_value(x)))
+        except Exception:  # noqa: BLE001
+            elem.append(("fail", None))
+    with warnings.catch_warnings():
+        warnings.simplefilter("ignore")
+        try:
+            out = T.try_coerce(obj)
+            kind = "ok"
+        except errors.ParserError as e:
+            kind, fc = "parser", e.failure_cases
+        except Exception as e:  # noqa: BLE001
+            kind = "leak:" + type(e).__name__
+        rep.case(case)
+        rep.count(f"registry:{fam}:{kind.split(':')[0]}")
+        what = None
+        if kind == "ok":
+            if len(out) != n or (cont != "index" and list(out.index) != labels):
+                what = "shape"
+            elif not _check(T, out):
+                what = "check-fails-on-coerced-data"
+            elif any(k == "fail" and not isnull(x) for (k, _), x in zip(elem, vals)):
+                what = "container-coerced-an-element-coerce_value-rejects"
+            else:
+                try:
+                    again = T.try_coerce(out)
+                    same = again.equals(out) if hasattr(again, "equals") else list(again) == list(out)
+                    if not same:
+                        what = "not-idempotent"
+                except Exception as e:  # noqa: BLE001
+                    what = "second-coercion-raises:" + type(e).__name__
+        elif kind == "parser":
+            try:
+                got = sorted("null" if isnull(x) else repr(x) for x in fc["failure_case"].tolist()) if fc is not None else []
+            except Exception:  # noqa: BLE001
+                got = None
+            want = sorted("null" if isnull(x) else repr(x) for (k, _), x in zip(elem, vals) if k == "fail")
+            if got != want:
+                what = "failure-cases-differ-from-uncoercible-elements"
+        else:
+            what = kind
+    if what:
+        rep.property_failure(case, f"{name}: {what}", region=f"K_C10_{fam}:{what.split(':')[0]}")
+
+
 def run_registry(rep, tier, rng):
     from pandera import errors
     dts = pandas_dtypes()
@@ -188,51 +239,7 @@ def run_registry(rep, tier, rng):
                 obj = pd.Index(vals, dtype=object) if cont == "index" else s
             except Exception:  # noqa: BLE001
                 continue
-            elem = []
-            for x in vals:
-                try:
-                    elem.append(("ok", T.coerce_value(x)))
-                except Exception:  # noqa: BLE001
-                    elem.append(("fail", None))
-            with warnings.catch_warnings():
-                warnings.simplefilter("ignore")
-                try:
-                    out = T.try_coerce(obj)
-                    kind = "ok"
-                except errors.ParserError as e:
-                    kind, fc = "parser", e.failure_cases
-                except Exception as e:  # noqa: BLE001
-                    kind = "leak:" + type(e).__name__
-                rep.case(case)
-                rep.count(f"registry:{fam}:{kind.split(':')[0]}")
-                what = None
-                if kind == "ok":
-                    if len(out) != n or (cont != "index" and list(out.index) != labels):
-                        what = "shape"
-                    elif not _check(T, out):
-                        what = "check-fails-on-coerced-data"
-                    elif any(k == "fail" and not isnull(x) for (k, _), x in zip(elem, vals)):
-                        what = "container-coerced-an-element-coerce_value-rejects"
-                    else:
-                        try:
-                            again = T.try_coerce(out)
-                            same = again.equals(out) if hasattr(again, "equals") else list(again) == list(out)
-                            if not same:
-                                what = "not-idempotent"
-                        except Exception as e:  # noqa: BLE001
-                            what = "second-coercion-raises:" + type(e).__name__
-                elif kind == "parser":
-                    try:
-                        got = sorted(map(repr, fc["failure_case"].tolist())) if fc is not None else []
-                    except Exception:  # noqa: BLE001
-                        got = None
-                    want = sorted(repr(x) for (k, _), x in zip(elem, vals) if k == "fail")
-                    if got != want:
-                        what = "failure-cases-differ-from-uncoercible-elements"
-                else:
-                    what = kind
-            if what:
-                rep.property_failure(case, f"{name}: {what}", region=f"K_C10_{fam}:{what.split(':')[0]}")
+            judge_trial(rep, case, name, T, fam, obj, vals, labels, cont)
         # conforming data: identity
         try:
             with warnings.catch_warnings():
@@ -249,6 +256,50 @@ def run_registry(rep, tier, rng):
             pass
 
 
+def run_parametrised(rep, tier, rng):
+    """data types with parameters (declared categories, time zones, decimal precision / scale) and containers that
+    already have a related dtype (a categorical over a wider or narrower set, tz-aware / naive timestamps)"""
+    from pandera.engines import pandas_engine as pe
+    targets = []
+    try:
+        targets += [("Category[a,b]", pe.Category(categories=["a", "b"]), ["a", "b", "z", None, "b"]),
+                    ("Category[a,b,c;ordered]", pe.Category(categories=["a", "b", "c"], ordered=True), ["a", "c", "zz", None]),
+                    ("Category[1,2]", pe.Category(categories=[1, 2]), [1, 2, 9, None])]
+    except Exception:  # noqa: BLE001
+        pass
+    try:
+        targets += [("DateTime[UTC]", pe.DateTime(tz="UTC"), [pd.Timestamp("2020-01-01"), "2020-01-02", "x", None,
+                                                              pd.Timestamp("2020-01-01", tz="Europe/Berlin")]),
+                    ("Decimal(6,2)", pe.Decimal(6, 2), [1, "2.5", "x", None, 1.25, "12345.678"])]
+    except Exception:  # noqa: BLE001
+        pass
+    trials = 12 if tier == "quick" else 300
+    for name, T, pool in targets:
+        # (the recorded category region is about a Category *without* declared categories only)
+        fam = "category-declared" if name.startswith("Category") else "parametrised-" + family(name, T)
+        for _ in range(trials):
+            n = rng.randint(0, 4)
+            vals = [rng.choice(pool) for _ in range(n)]
+            cont = rng.choice(["series", "index", "categorical", "categorical"]) if name.startswith("Category") else \
+                rng.choice(["series", "index"])
+            if cont == "index":
+                vals = [v for v in vals if not isnull(v)]
+                n = len(vals)
+            labels = [f"r{i}" for i in range(n)]
+            case = {"kind": "parametrised", "dtype": name, "vals": [repr(v) for v in vals], "container": cont}
+            try:
+                s_ = pd.Series(vals, dtype=object, index=labels)
+                if cont == "categorical":
+                    # already categorical, over the values present plus one more: wider than (or different from) the target
+                    cats = sorted({v for v in vals if not isnull(v)} | {pool[0]}, key=repr)
+                    obj = s_.astype(pd.CategoricalDtype(cats))
+                else:
+                    obj = pd.Index(vals, dtype=object) if cont == "index" else s_
+            except Exception:  # noqa: BLE001
+                continue
+            judge_trial(rep, case, name + "|" + type(T).__name__, T, fam, obj, vals, labels, "series" if cont == "categorical" else cont)
+
+
 def run_polars(rep, tier, rng):
     try:
         import polars as pl
@@ -260,6 +311,13 @@ def run_polars(rep, tier, rng):
         return
     targets = {"Int64": ple.Int64(), "Int8": ple.Int8(), "UInt8": ple.UInt8(), "Float64": ple.Float64(), "String": ple.String(),
                "Bool": ple.Bool(), "Date": ple.Date(), "Datetime": ple.DateTime()}
+    for extra_name, mk in (("Decimal(10,2)", lambda: ple.Decimal(10, 2)), ("Float32", lambda: ple.Float32()),
+                           ("Int32", lambda: ple.Int32()), ("UInt32", lambda: ple.UInt32()), ("Time", lambda: ple.Time()),
+                           ("Duration", lambda: ple.Timedelta())):
+        try:
+            targets[extra_name] = mk()
+        except Exception:  # noqa: BLE001
+            pass
     pools = {"str": ["1", "-3", "x", "2.5", "", "300", None, "2020-01-02", "true"], "int": [1, -3, 300, 0, None],
              "float": [1.5, -2.0, float("nan"), None, 1e20]}
     n_cases = 150 if tier == "quick" else 4000
@@ -332,11 +390,13 @@ def run(tier, replay=None):
         else:
             rep.notes.append("registry / polars replays are regenerated from the seed")
             run_registry(rep, tier, rng)
+            run_parametrised(rep, tier, rng)
             run_polars(rep, tier, rng)
         return rep.finish(rule="replay")
     n = 700 if tier == "quick" else 20000
     run_abs(rep, [c for c in corpus_cases(PROP) if c.get("kind") == "abs"] + [gen_abs_case(rng) for _ in range(n)])
     run_registry(rep, tier, rng)
+    run_parametrised(rep, tier, rng)
     run_polars(rep, tier, rng)
     return rep.finish(
         rule="modelled targets int64 / float64 / str: object Series / Index / column over ints, floats, numeric and "
